@@ -26,6 +26,8 @@ SCEN_PERS = {
     'pfail': dict(target='p_work', targs=[0, '$DIR'], inputs=[[1], [2, '$DIR', 4, True], [3]], own=('error', 'CustomError')),
     # the result of the second input cannot be rebuilt in the parent; two more inputs follow
     'pbad2': dict(target='p_work', targs=[0, '$DIR'], inputs=[[1], [2, '$DIR', 6, 'onlyhere'], [3], [4]], own=('error', None)),
+    # inputs of different shapes: what one input overrides must not leak into the next
+    'pmix': dict(target='p_work', targs=[0, '$DIR'], inputs=[[1], [2, '$DIR', 3], [3], [4, '$DIR', 5], [5]], own=('value', '5')),
     'p0': dict(target='p_work', targs=[0, '$DIR'], inputs=[], own=('value', '0')),
     'p1': dict(target='p_work', targs=[0, '$DIR'], inputs=[[1]], own=('value', '1')),
     'p3': dict(target='p_work', targs=[0, '$DIR'], inputs=[[1], [2], [3]], own=('value', '3')),
